@@ -255,6 +255,35 @@ def _cfg_fallback_rule(ctx, q):
     return True, ""
 
 
+def call_arity_rule(ctx, rule="C13.R1") -> None:
+    """Call / LoadFunc of a polymorphic function: every way of completing the constructor has compared the number of type arguments
+    it files with the number of type parameters (omitted arguments count as none)"""
+    import re
+    q = "hugr.ops._CallOrLoad.__init__"
+    fn, mod, _ = ctx.locate(q)
+    ps = ctx.paths(q)
+    sig = fn.args.args[1].arg
+    done = [p for p in ps if p.kind != "raise"]
+    bad = None
+    for p in done:
+        mono = p.has_test(f"len({sig}.params) == 0", True) is not None or p.has_test(f"len({sig}.params) != 0", False) is not None \
+            or p.has_test(f"{sig}.params", False) is not None or p.has_test(f"not {sig}.params", True) is not None or p.has_test(f"len({sig}.params) > 0", False) is not None
+        if mono:
+            continue
+        eq = False
+        for t, k in p.tests:
+            tt = u(t)
+            if f"len({sig}.params)" in tt and tt.count("len(") >= 2 and isinstance(t, ast.Compare) and len(t.ops) == 1:
+                if (isinstance(t.ops[0], ast.Eq) and k) or (isinstance(t.ops[0], ast.NotEq) and not k):
+                    eq = True
+        if not eq:
+            bad = p
+            break
+    ctx.check(bool(done) and bad is None, rule, "_CallOrLoad.__init__: type arguments counted against type parameters", mod.path, fn.lineno,
+              "a Call / LoadFunc of a polymorphic function must refuse (NoConcreteFunc) a number of type arguments different from the number of type "
+              "parameters -- also when the arguments are omitted" + (f" [completes without the comparison: {bad.describe()[:160]}]" if bad is not None else ""), fn)
+
+
 def r1_guards(ctx) -> None:
     prog = ctx.program
     from ..tmpl import T, tmatch
@@ -508,6 +537,7 @@ def run(ctx) -> None:
     ctx.rule("C13.R2", "optional op fields are read through _check_complete accessors on every path reachable from _to_serial", floor=15)
     ctx.rule("C13.R3", "index range guards followed by a subscript bound the index on both sides", floor=1)
     r1_guards(ctx)
+    call_arity_rule(ctx)
     from .c01 import r6_function_boundary
     r6_function_boundary(ctx, rule="C13.R1")     # "a wire's source has no ancestor-sibling relation to its target" includes wires into a function body
     r2_complete(ctx)
